@@ -82,7 +82,7 @@ Proof.
   destruct (IH H2) as [k Hk]. exists (x :: k). simpl. now rewrite Hk.
 Qed.
 
-Lemma all_some_map_Some k : forallb is_some (map Some k) = true.
+Lemma all_some_map_Some (k : list cid) : forallb is_some (map Some k) = true.
 Proof. induction k; simpl; auto. Qed.
 
 (* ================================================================================================================
@@ -104,19 +104,22 @@ Proof.
   constructor; [|now apply IH]. intros Hin. apply in_map_iff in Hin as [y [E Hy]]. inversion E; subst. contradiction.
 Qed.
 
+Lemma NoDup_app_disjoint {A} (l1 l2 : list A) :
+  NoDup l1 -> NoDup l2 -> (forall x, In x l1 -> ~ In x l2) -> NoDup (l1 ++ l2).
+Proof.
+  induction l1 as [|x r IH]; simpl; intros Hn1 Hn2 Hdis; [assumption|]. inversion Hn1; subst.
+  constructor.
+  - rewrite in_app_iff. intros [H|H]; [contradiction|]. apply (Hdis x); [now left|assumption].
+  - apply IH; [assumption|assumption|]. intros y Hy. apply Hdis. now right.
+Qed.
+
 Lemma NoDup_flat_map_cons (l : list cid) (p : list stratum) :
   NoDup l -> NoDup p -> NoDup (flat_map (fun c => map (cons c) p) l).
 Proof.
   induction l as [|c r IH]; simpl; intros Hl Hp; [constructor|]. inversion Hl; subst.
-  assert (Hdis : forall x, In x (map (cons c) p) -> ~ In x (flat_map (fun c0 => map (cons c0) p) r)).
-  { intros x Hx Hx'. apply in_map_iff in Hx as [y [E Hy]]. subst.
-    apply in_flat_map in Hx' as [c' [Hc' Hx']]. apply in_map_iff in Hx' as [y' [E' _]]. inversion E'; subst. contradiction. }
-  revert Hdis. generalize (NoDup_map_cons c p Hp). generalize (IH H2 Hp).
-  generalize (flat_map (fun c0 => map (cons c0) p) r). generalize (map (cons c) p).
-  intros l1 l2 H2' H1. induction H1 as [|x l1 Hx H1 IH1]; simpl; intros Hdis; [assumption|].
-  constructor.
-  - rewrite in_app_iff. intros [H|H]; [contradiction|]. apply (Hdis x); [now left|assumption].
-  - apply IH1. intros y Hy. apply Hdis. now right.
+  apply NoDup_app_disjoint; [now apply NoDup_map_cons|now apply IH|].
+  intros x Hx Hx'. apply in_map_iff in Hx as [y [E Hy]]. subst.
+  apply in_flat_map in Hx' as [c' [Hc' Hx']]. apply in_map_iff in Hx' as [y' [E' _]]. inversion E'; subst. contradiction.
 Qed.
 
 Lemma product_NoDup ls : Forall (@NoDup cid) ls -> NoDup (product ls).
@@ -501,7 +504,7 @@ Proof.
   - intros [r [Hr H]]. apply existsb_exists in H as [s [Hs H]]. exists r, s. repeat split; auto.
     unfold class_ok in H. destruct (classify s (raw_of (s_name s) r)) as [c|e|] eqn:E; try discriminate.
     + now exists e.
-    + unfold classify in E. destruct (mapped_value s (raw_of (s_name s) r)); [|discriminate].
+    + unfold classify in E. destruct (mapped_value s (raw_of (s_name s) r)) as [z|]; [|discriminate].
       destruct (zmem z (s_cats s)); [discriminate|]. destruct (zmem z (s_excl s)); discriminate.
   - intros [r [s [Hr [Hs [e He]]]]]. exists r. split; [assumption|]. apply existsb_exists. exists s. split; [assumption|].
     unfold class_ok. now rewrite He.
@@ -605,4 +608,98 @@ Proof.
   induction l as [|x r IH]; intros Hs Hn; [constructor|]. inversion Hs as [|? ? Hs' Hf]; subst. inversion Hn; subst.
   constructor; [now apply IH|]. rewrite Forall_forall in *. intros y Hy. specialize (Hf y Hy).
   assert (x <> y) by (intros ->; contradiction). lia.
+Qed.
+
+(* ================================================================================================================
+   packaged statements (exposed by props/C16.v)
+   ================================================================================================================ *)
+Lemma init_shape regs os st : init regs os = Ok st -> st = map (fun o => (o, init_one regs o)) os.
+Proof. unfold init. destruct (forallb _ os); [|discriminate]. intros H. now inversion H. Qed.
+
+Lemma partition_full cfg qs o ev :
+  let regs := build_regs cfg qs [] in
+  let v := ev_view regs o ev in
+  sumZ (increment v) (strata regs o) = eligible_total v /\
+  (forall k, increment v k = sumZ v_w (filter (fun r => eligible r && cats_match (v_cats r) k) v)) /\
+  (forall r, In r v ->
+     (eligible r = true ->
+        exists k, In k (strata regs o) /\ contrib r k = v_w r /\ forall k', k' <> k -> contrib r k' = 0) /\
+     (eligible r = false -> forall k, contrib r k = 0)) /\
+  (o_kind o = OCount -> eligible_total v = Z.of_nat (length (filter eligible v))) /\
+  grouped (map (cats_of_name regs) (o_strats o)) (dropna (vfilter v)) = map (fun k => (k, increment v k)) (strata regs o).
+Proof.
+  cbv zeta. assert (Hok : regs_ok (build_regs cfg qs [])) by (apply build_regs_ok; constructor).
+  split; [now apply partition_view|]. split; [intros k; apply increment_filter|].
+  split; [intros r Hr; now apply (exactly_one_stratum _ o ev)|]. split; [apply count_total|apply grouped_spec].
+Qed.
+
+Lemma total_is_sum_full regs os st0 evs st out :
+  init regs os = Ok st0 -> run regs st0 evs = (st, out) ->
+  let seen := accepted_prefix regs st0 evs in
+  (out = Accepted -> seen = evs) /\
+  (forall e, out = Refused e -> exists bad rest, evs = seen ++ bad :: rest /\ step regs st bad = (st, Refused e)) /\
+  map fst st = os /\
+  forall o res, In (o, res) st ->
+    match o_kind o, res with
+    | OConcat cols, RCat rows => rows = flat_map (ev_rows o cols) seen
+    | OConcat _, RAdd _ => False
+    | _, RAdd t => map fst t = strata regs o /\
+                   forall k, In k (strata regs o) -> tlookup k t = Some (sumZ (fun ev => ev_increment regs o ev k) seen)
+    | _, RCat _ => False
+    end.
+Proof.
+  intros Hi Hr. cbv zeta. destruct (init_tracks _ _ _ Hi) as [Ht0 Hos].
+  destruct (run_tracks regs evs _ _ _ [] Hr Ht0) as [A [B [C D]]]. simpl in A.
+  split; [assumption|]. split.
+  - intros e He. destruct (D e He) as [bad [rest [st1 [E1 [E2 E3]]]]]. subst st1. now exists bad, rest.
+  - split; [congruence|]. intros o res Hin. unfold tracks in A. rewrite Forall_forall in A.
+    specialize (A _ Hin). unfold tracks_one in A. simpl in A. exact A.
+Qed.
+
+Lemma full_index cfg qs os st0 evs st out :
+  let regs := build_regs cfg qs [] in
+  init regs os = Ok st0 -> run regs st0 evs = (st, out) ->
+  forall o res, In (o, res) st -> uses_strats o = true ->
+  exists t, res = RAdd t /\ map fst t = strata regs o /\ NoDup (map fst t) /\
+            In (o, RAdd (map (fun k => (k, 0)) (strata regs o))) st0 /\
+            (forall k, In k (strata regs o) <-> Forall2 (fun c n => In c (cats_of_name regs n)) k (o_strats o)) /\
+            (o_strats o = [] -> strata regs o = [[]]).
+Proof.
+  cbv zeta. intros Hi Hr o res Hin Hu.
+  destruct (total_is_sum_full _ _ _ _ _ _ Hi Hr) as [_ [_ [Hos Hall]]]. specialize (Hall _ _ Hin).
+  assert (Hok : regs_ok (build_regs cfg qs [])) by (apply build_regs_ok; constructor).
+  assert (Ho : In o os) by (rewrite <- Hos; apply (in_map fst _ _ Hin)).
+  assert (H0 : In (o, RAdd (map (fun k => (k, 0)) (strata (build_regs cfg qs []) o))) st0).
+  { rewrite (init_shape _ _ _ Hi). apply in_map_iff. exists o. split; [|assumption]. f_equal.
+    unfold init_one. unfold uses_strats in Hu. destruct (o_kind o); try reflexivity. discriminate. }
+  assert (Hkeys : forall k, In k (strata (build_regs cfg qs []) o) <->
+                            Forall2 (fun c n => In c (cats_of_name (build_regs cfg qs []) n)) k (o_strats o)).
+  { intros k. unfold strata. rewrite product_In. generalize (o_strats o). clear. intros ns. revert k.
+    induction ns as [|n r IH]; intros k; simpl; split; intros H; inversion H; subst; constructor; auto; now apply IH. }
+  assert (Hnil : o_strats o = [] -> strata (build_regs cfg qs []) o = [[]]) by (unfold strata; now intros ->).
+  unfold uses_strats in Hu. destruct (o_kind o) eqn:Ek; try discriminate; destruct res as [t|rows]; try contradiction;
+    destruct Hall as [Hk _]; exists t; (split; [reflexivity|]); (split; [assumption|]);
+    (split; [rewrite Hk; now apply strata_NoDup|]); auto.
+Qed.
+
+Lemma categories_origin cfg qs s : In s (build_regs cfg qs []) ->
+  exists q, In q qs /\ s_name s = q_name q /\ s_excl s = resolve_excl cfg q /\
+            s_cats s = filter (fun c => negb (zmem c (resolve_excl cfg q))) (q_cats q) /\ NoDup (s_cats s).
+Proof.
+  intros H. assert (Hok : regs_ok (build_regs cfg qs [])) by (apply build_regs_ok; constructor).
+  destruct (build_regs_origin _ _ _ _ H) as [[]|[q [Hq ->]]]. exists q. repeat split; auto.
+  unfold regs_ok in Hok. rewrite Forall_forall in Hok. exact (Hok _ H).
+Qed.
+
+Lemma resolution_full d r a e iter : Permutation iter (spec_set d r a e) ->
+  resolve iter = isort (spec_set d r a e) /\ StronglySorted Z.lt (resolve iter) /\
+  forall x, In x (resolve iter) <-> (In x d \/ In x r \/ In x a) /\ ~ In x e.
+Proof.
+  intros Hp. split; [now apply resolve_perm_invariant|]. split.
+  - apply sorted_strict; [apply isort_sorted|].
+    apply (Permutation_NoDup (l := spec_set d r a e)); [|apply spec_set_NoDup].
+    eapply perm_trans; [apply Permutation_sym, Hp|apply isort_perm].
+  - intros x. rewrite <- spec_set_In. unfold resolve. split; intros H.
+    + apply (Permutation_in _ Hp). apply (Permutation_in _ (Permutation_sym (isort_perm iter))). exact H.
+    + apply (Permutation_in _ (isort_perm iter)). apply (Permutation_in _ (Permutation_sym Hp)). exact H.
 Qed.
